@@ -123,50 +123,79 @@ Qed.
 Lemma fresh_inv base ex n : fresh base ex = Some n -> name_of base n ex.
 Proof. intros H. destruct (fresh_spec base ex) as [n' [E S]]. congruence. Qed.
 
+Lemma add_dim_incl n sz dims x : In x (map fst dims) -> In x (map fst (add_dim n sz dims)).
+Proof. unfold add_dim. destruct (mem n (map fst dims)); simpl; auto. Qed.
+
+Lemma assoc_key_some {A} k (l : list (string * A)) : In k (map fst l) -> exists x, assoc k l = Some x.
+Proof.
+  induction l as [|[k' v] r IH]; simpl; [intros []|].
+  destruct (String.eqb k k') eqn:E; [eauto|].
+  intros [H|H]; [apply String.eqb_neq in E; congruence|apply IH; exact H].
+Qed.
+
+Lemma add_dim_assoc n sz dims k :
+  (exists x, assoc k dims = Some x) -> exists x, assoc k (add_dim n sz dims) = Some x.
+Proof.
+  unfold add_dim. destruct (mem n (map fst dims)); [auto|].
+  intros [x H]. simpl. destruct (String.eqb k n); eauto.
+Qed.
+
+Lemma add_dim_self n sz dims : exists x, assoc n (add_dim n sz dims) = Some x.
+Proof.
+  unfold add_dim. destruct (mem n (map fst dims)) eqn:M.
+  - apply assoc_key_some. apply mem_In. exact M.
+  - simpl. rewrite String.eqb_refl. eauto.
+Qed.
+
 (* one request *)
 Definition base_of (o : op) : string :=
-  match o with OName b | ODim b _ | ORole b _ _ => b end.
+  match o with OName b | ODim b _ | ORole b _ _ _ => b end.
 
 Lemma step_new s o s' n :
   step s o = Ok (s', n, true) ->
   name_of (base_of o) n (existing s) /\ In n (existing s') /\ incl (existing s) (existing s').
 Proof.
-  unfold step, step_with, existing. destruct o as [b|b sz|b sz role]; simpl.
+  unfold step, step_with, existing. destruct o as [b|b sz|b sz role named]; simpl.
   - destruct (fresh b _) eqn:F; [|discriminate]. intros H; inversion H; subst; clear H.
     apply fresh_inv in F. splits; simpl; auto. intros x Hx; right; exact Hx.
   - destruct (fresh b _) eqn:F; [|discriminate]. intros H; inversion H; subst; clear H.
     apply fresh_inv in F. splits; simpl; auto. intros x Hx. right.
     apply in_app_iff in Hx. apply in_app_iff. destruct Hx; [left|right; right]; auto.
   - destruct (is_empty role); [discriminate|].
-    destruct (find_role_dim _ _ _) as [[c|]|e]; try discriminate.
+    destruct (find_role_dim _ _ _ _ _) as [[c|]|e]; try discriminate.
     destruct (fresh b _) eqn:F; [|discriminate]. intros H; inversion H; subst; clear H.
     apply fresh_inv in F. splits; simpl; auto. intros x Hx. right.
-    apply in_app_iff in Hx. apply in_app_iff. destruct Hx; [left|right; right]; auto.
+    apply in_app_iff in Hx. apply in_app_iff. destruct Hx; [left|right; apply add_dim_incl]; auto.
 Qed.
 
-Lemma find_role_dim_some cands dims size c :
-  find_role_dim cands dims size = Ok (Some c) -> In c cands /\ assoc c dims = Some size.
+Lemma find_role_dim_some named base cands dims size c :
+  find_role_dim named base cands dims size = Ok (Some c) ->
+  In c cands /\ assoc c dims = Some size /\ (named = true -> c = base).
 Proof.
   induction cands as [|x r IH]; simpl; [discriminate|].
-  destruct (assoc x dims) as [sz|] eqn:A; [|discriminate].
-  destruct (Z.eqb sz size) eqn:E.
-  - intros H; inversion H; subst. apply Z.eqb_eq in E. subst. auto.
+  destruct (named && negb (String.eqb x base)) eqn:N.
   - intros H. apply IH in H. tauto.
+  - destruct (assoc x dims) as [sz|] eqn:A; [|discriminate].
+    destruct (Z.eqb sz size) eqn:E.
+    + intros H; inversion H; subst. apply Z.eqb_eq in E. subst. splits; auto.
+      intros ->. simpl in N. apply negb_false_iff, String.eqb_eq in N. exact N.
+    + intros H. apply IH in H. tauto.
 Qed.
 
 (* an answer that is not new is an existing dimension of that role and size *)
 Lemma step_reuse s o s' n :
   step s o = Ok (s', n, false) ->
-  s' = s /\ exists b sz role, o = ORole b sz role /\
-     In n (role_list role (n_roles s)) /\ assoc n (n_dims s) = Some sz.
+  s' = s /\ exists b sz role named, o = ORole b sz role named /\
+     In n (role_list role (n_roles s)) /\ assoc n (n_dims s) = Some sz /\
+     (named = true -> n = b).
 Proof.
-  unfold step, step_with. destruct o as [b|b sz|b sz role]; simpl.
+  unfold step, step_with. destruct o as [b|b sz|b sz role named]; simpl.
   - destruct (fresh b _); discriminate.
   - destruct (fresh b _); discriminate.
   - destruct (is_empty role); [discriminate|].
-    destruct (find_role_dim _ _ _) as [[c|]|e] eqn:F; try discriminate.
+    destruct (find_role_dim _ _ _ _ _) as [[c|]|e] eqn:F; try discriminate.
     + intros H; inversion H; subst; clear H. split; [reflexivity|].
-      apply find_role_dim_some in F. exists b, sz, role. tauto.
+      apply find_role_dim_some in F. exists b, sz, role, named. tauto.
     + destruct (fresh b _); discriminate.
 Qed.
 
@@ -217,7 +246,7 @@ Lemma run_names_form : forall ops s s' out,
   run ops s = Ok (s', out) ->
   Forall2 (fun o (a : string * bool) =>
              if snd a then exists ex, name_of (base_of o) (fst a) ex
-             else exists b sz role, o = ORole b sz role) ops out.
+             else exists b sz role named, o = ORole b sz role named) ops out.
 Proof.
   induction ops as [|o r IH]; intros s s' out H.
   - inversion H; subst. constructor.
@@ -226,7 +255,7 @@ Proof.
     inversion H; subst; clear H. constructor; [|eapply IH; exact R].
     simpl. destruct isnew.
     + apply step_new in S. exists (existing s). tauto.
-    + apply step_reuse in S. destruct S as [_ [b [sz [role [E _]]]]]. exists b, sz, role. exact E.
+    + apply step_reuse in S. destruct S as [_ [b [sz [role [named [E _]]]]]]. exists b, sz, role, named. exact E.
 Qed.
 
 (* totality: the allocator never fails on a history whose roles are not empty *)
@@ -248,17 +277,20 @@ Proof.
       * exact IH.
 Qed.
 
-Lemma find_role_dim_ok cands dims size :
+Lemma find_role_dim_ok named base cands dims size :
   (forall n, In n cands -> exists sz, assoc n dims = Some sz) ->
-  exists r, find_role_dim cands dims size = Ok r.
+  exists r, find_role_dim named base cands dims size = Ok r.
 Proof.
   induction cands as [|c r IH]; intros H; simpl; [eexists; reflexivity|].
+  assert (IH' : exists r0, find_role_dim named base r dims size = Ok r0)
+    by (apply IH; intros n Hn; apply H; right; exact Hn).
+  destruct (named && negb (String.eqb c base)); [exact IH'|].
   destruct (H c (or_introl eq_refl)) as [sz ->].
-  destruct (Z.eqb sz size); [eexists; reflexivity|]. apply IH. intros n Hn. apply H. right; exact Hn.
+  destruct (Z.eqb sz size); [eexists; reflexivity|exact IH'].
 Qed.
 
 Definition role_ok (o : op) : Prop :=
-  match o with ORole _ _ role => role <> EmptyString | _ => True end.
+  match o with ORole _ _ role _ => role <> EmptyString | _ => True end.
 
 Lemma assoc_cons_some {A} k k' (v : A) l :
   (exists x, assoc k l = Some x) -> exists x, assoc k ((k', v) :: l) = Some x.
@@ -267,20 +299,20 @@ Proof. intros [x H]. simpl. destruct (String.eqb k k'); eauto. Qed.
 Lemma step_total s o : sized s -> role_ok o ->
   exists s' n isnew, step s o = Ok (s', n, isnew) /\ sized s'.
 Proof.
-  intros SZ RO. unfold step, step_with. destruct o as [b|b sz|b sz role]; simpl.
+  intros SZ RO. unfold step, step_with. destruct o as [b|b sz|b sz role named]; simpl.
   - destruct (fresh_spec b (existing s)) as [n [-> _]]. do 3 eexists. split; [reflexivity|]. exact SZ.
   - destruct (fresh_spec b (existing s)) as [n [-> _]]. do 3 eexists. split; [reflexivity|].
     intros r m Hm. simpl in *. apply assoc_cons_some. apply (SZ r m Hm).
   - simpl in RO. destruct role as [|a rr]; [congruence|]. simpl.
-    destruct (find_role_dim_ok (role_list (String a rr) (n_roles s)) (n_dims s) sz) as [[c|] ->].
+    destruct (find_role_dim_ok named b (role_list (String a rr) (n_roles s)) (n_dims s) sz) as [[c|] ->].
     + intros n Hn. apply (SZ _ _ Hn).
     + do 3 eexists. split; [reflexivity|]. exact SZ.
     + destruct (fresh_spec b (existing s)) as [n [-> _]]. do 3 eexists. split; [reflexivity|].
       intros r m Hm. simpl in *. rewrite role_list_add in Hm. apply in_app_iff in Hm.
       destruct Hm as [Hm|Hm].
-      * apply assoc_cons_some. apply (SZ r m Hm).
+      * apply add_dim_assoc. apply (SZ r m Hm).
       * destruct (String.eqb r (String a rr)); [|destruct Hm]. destruct Hm as [<-|[]].
-        simpl. rewrite String.eqb_refl. eauto.
+        apply add_dim_self.
 Qed.
 
 Lemma run_total : forall ops s, sized s -> Forall role_ok ops ->
@@ -948,11 +980,94 @@ Lemma convert_user user t t' : assoc t user = Some t' -> convert user t = t'.
 Proof. intros H. unfold convert. rewrite H. reflexivity. Qed.
 
 (* ================================================================== *)
+(* 6. reference attributes                                             *)
+(* ================================================================== *)
+Lemma attr_of_ok vars l : (forall n, In n l -> In n vars) -> attr_ok vars (attr_of l).
+Proof. destruct l as [|x r]; simpl; [tauto|]. intros H. split; [discriminate|exact H]. Qed.
+
+Lemma created_In auxs a n : In a auxs -> In n (aux_created a) -> In n (created auxs).
+Proof. intros Ha Hn. unfold created. apply in_flat_map. exists a. split; assumption. Qed.
+
+Lemma aux_listed_created a n : In n (aux_listed a) -> In n (aux_created a).
+Proof.
+  unfold aux_listed, aux_created.
+  destruct (negb (x_props a) && negb (x_data a)); [intros []|].
+  destruct (x_data a); [|intros []]. intros [<-|[]]. apply in_app_iff. left. left. reflexivity.
+Qed.
+
+Lemma geoms_incl auxs a : In a (geoms auxs) -> In a auxs /\ is_geom a = true.
+Proof. unfold geoms. intros H. apply filter_In in H. exact H. Qed.
+
+(* every name in every reference attribute built from the auxiliary coordinates
+   - the data variable's coordinates, the container's node_coordinates,
+   coordinates and grid_mapping - is the name of a variable that exists; no
+   attribute is empty; grid_mapping names one variable *)
+Lemma refs_resolve auxs :
+  attr_ok (created auxs) (coordinates_attr auxs) /\
+  forall c, container_of auxs = Ok (Some c) ->
+    attr_ok (created auxs) (Some (g_nodes c)) /\
+    attr_ok (created auxs) (g_coords c) /\
+    attr_ok (created auxs) (g_gm c) /\
+    (forall l, g_gm c = Some l -> length l = 1%nat).
+Proof.
+  split.
+  - unfold coordinates_attr. apply attr_of_ok. intros n Hn.
+    apply in_flat_map in Hn. destruct Hn as [a [Ha Hn]].
+    eapply created_In; [exact Ha|]. apply aux_listed_created. exact Hn.
+  - intros c. unfold container_of, container_with.
+    destruct (geoms auxs) as [|g0 gr] eqn:G; [discriminate|].
+    assert (GI : forall a, In a (g0 :: gr) -> In a auxs /\ is_geom a = true)
+      by (intros a Ha; apply geoms_incl; rewrite G; exact Ha).
+    set (gs := g0 :: gr) in *.
+    assert (NODES : attr_ok (created auxs)
+              (Some (flat_map (fun a => match x_nodes a with Some n => [n] | None => [] end) gs))).
+    { split.
+      - unfold gs. simpl. destruct (GI g0 (or_introl eq_refl)) as [_ I0].
+        unfold is_geom in I0. destruct (x_nodes g0); [discriminate|discriminate].
+      - intros n Hn. apply in_flat_map in Hn. destruct Hn as [a [Ha Hn]].
+        destruct (GI a Ha) as [Ha' _]. eapply created_In; [exact Ha'|].
+        unfold aux_created. destruct (x_nodes a); [|destruct Hn]. destruct Hn as [<-|[]].
+        apply in_app_iff. right. apply in_app_iff. left. left. reflexivity. }
+    assert (COORDS : attr_ok (created auxs)
+              (attr_of (flat_map (fun a => if x_data a then [x_name a] else []) gs))).
+    { apply attr_of_ok. intros n Hn. apply in_flat_map in Hn. destruct Hn as [a [Ha Hn]].
+      destruct (GI a Ha) as [Ha' _]. eapply created_In; [exact Ha'|].
+      unfold aux_created. destruct (x_data a); [|destruct Hn]. destruct Hn as [<-|[]].
+      apply in_app_iff. left. left. reflexivity. }
+    destruct (dedup (flat_map x_gm gs)) as [|m [|m2 r2]] eqn:D; intros H; inversion H; subst; clear H;
+      cbn [g_nodes g_coords g_gm].
+    + split; [exact NODES|]. split; [exact COORDS|]. split; [exact I|]. intros l Hl. discriminate.
+    + split; [exact NODES|]. split; [exact COORDS|]. split.
+      * split; [discriminate|]. intros n [<-|[]].
+        assert (Hm : In m (dedup (flat_map x_gm gs))) by (rewrite D; left; reflexivity).
+        apply (proj1 (dedup_In _ _)) in Hm. apply in_flat_map in Hm. destruct Hm as [a [Ha Hm]].
+        destruct (GI a Ha) as [Ha' _]. eapply created_In; [exact Ha'|].
+        unfold aux_created. apply in_app_iff. right. apply in_app_iff. right. exact Hm.
+      * intros l Hl. inversion Hl. reflexivity.
+Qed.
+
+(* and the coordinates attribute is complete: every coordinate variable that was
+   created is named *)
+Lemma coordinates_complete auxs a :
+  In a auxs -> x_data a = true -> In (x_name a) (flat_map aux_listed auxs).
+Proof.
+  intros Ha D. apply in_flat_map. exists a. split; [exact Ha|].
+  unfold aux_listed. rewrite D. rewrite andb_false_r. left. reflexivity.
+Qed.
+
+Lemma refs_example :
+  let auxs := [mkA "lon" true false (Some "x") ["datum"]; mkA "lat" true true (Some "y") ["datum"];
+               mkA "alt" false false (Some "z") []; mkA "name" true true None []] in
+  coordinates_attr auxs = Some ["lat"; "name"] /\
+  container_of auxs = Ok (Some (mkG ["x"; "y"; "z"] (Some ["lat"]) (Some ["datum"]))).
+Proof. vm_compute. split; reflexivity. Qed.
+
+(* ================================================================== *)
 (* examples (non-vacuity)                                              *)
 (* ================================================================== *)
 Lemma names_example :
-  exists s out, run [OName "a_b"; OName "a b"; ODim "lat" 5; ORole "bounds2" 2 "bounds";
-                     ORole "bounds2" 2 "bounds"; OName "lat"] n_init = Ok (s, out) /\
+  exists s out, run [OName "a_b"; OName "a b"; ODim "lat" 5; ORole "bounds2" 2 "bounds" false;
+                     ORole "bounds2" 2 "bounds" false; OName "lat"] n_init = Ok (s, out) /\
     map fst out = ["a_b"; "a_b_1"; "lat"; "bounds2"; "bounds2"; "lat_1"] /\
     issued out = ["a_b"; "a_b_1"; "lat"; "bounds2"; "lat_1"].
 Proof. eexists. eexists. vm_compute. splits; reflexivity. Qed.
